@@ -1,13 +1,43 @@
-(* Props/C13.v — algebra options change speed, never results.  Statements only.
-   (The symbol-class independence theorem of Theory/Natural.v is added when that file is in the build.) *)
-From KV Require Import Model.All Bridge.Codegen.
+(* Props/C13.v — algebra options change speed, never results.  Statements only; proofs in
+   Theory/Natural.v.  The options cse / wrapper / printing select printers and builders (glue, validated
+   by the differential correspondence); the option codegen_symbolcls selects the coefficient structure
+   the generators run on, and for THAT the independence is a theorem: *)
+From KV Require Import Model.All Model.Composite Bridge.Codegen Theory.Natural.
 Local Open Scope Z_scope.
 
-(* the kernels that decide WHICH terms a generated function contains are functions of the keys only:
-   no option (cse, symbol class, wrapper) occurs in them *)
+(* two symbol classes (any two coefficient structures with operation-preserving maps into the same
+   target, e.g. kingdon's rational polynomials and sympy expressions, both evaluated at the same
+   values): operands with equal images give LITERALLY equal images of the results *)
+Theorem C13_symbol_class_independent : forall (R1 R2 S : Type) (O1 : ops R1) (O2 : ops R2) (OS : ops S)
+  (h1 : R1 -> S) (h2 : R2 -> S), ops_hom O1 OS h1 -> ops_hom O2 OS h2 ->
+  forall A (x1 y1 : mv R1) (x2 y2 : mv R2),
+  map_mv h1 x1 = map_mv h2 x2 -> map_mv h1 y1 = map_mv h2 y2 ->
+  map_mv h1 (gp O1 A x1 y1) = map_mv h2 (gp O2 A x2 y2) /\
+  map_mv h1 (sw O1 A x1 y1) = map_mv h2 (sw O2 A x2 y2) /\
+  map_mv h1 (proj O1 A x1 y1) = map_mv h2 (proj O2 A x2 y2) /\
+  map_mv h1 (normsq O1 A x1) = map_mv h2 (normsq O2 A x2).
+Proof.
+  intros. repeat split; [eapply C13_gp | eapply C13_sw | eapply C13_proj | eapply C13_normsq]; eassumption.
+Qed.
+Print Assumptions C13_symbol_class_independent.
+
+Theorem C13_products_symbol_class_independent : forall (R1 R2 S : Type) (O1 : ops R1) (O2 : ops R2) (OS : ops S)
+  (h1 : R1 -> S) (h2 : R2 -> S), ops_hom O1 OS h1 -> ops_hom O2 OS h2 ->
+  forall sfun filt kout (x1 y1 : mv R1) (x2 y2 : mv R2),
+  map_mv h1 x1 = map_mv h2 x2 -> map_mv h1 y1 = map_mv h2 y2 ->
+  map_mv h1 (codegen_product O1 sfun filt kout x1 y1) = map_mv h2 (codegen_product O2 sfun filt kout x2 y2).
+Proof. intros. eapply C13_codegen_product; eassumption. Qed.
+Print Assumptions C13_products_symbol_class_independent.
+
+(* the kernels that decide WHICH terms a generated function contains are functions of the keys only *)
 Theorem C13_kernels_option_independent : forall sgn kx ky ko,
   Gen.Codegen.filter_op kx ky ko = Model.Codegen.filter_op kx ky ko /\
   Gen.Codegen.filter_cp sgn kx ky ko = Model.Codegen.filter_cp sgn kx ky ko /\
   Gen.Codegen.keyout_default kx ky = Z.lxor kx ky.
 Proof. intros. repeat split. Qed.
 Print Assumptions C13_kernels_option_independent.
+(* graded mode "every result stores complete grades" is REFUTED on the current tree for algebras with a
+   null generator (known finding F5): the model's codegen_product omits sign-0 pairs exactly as the code *)
+Example C13_graded_incomplete_witness :
+  keys (gp Zops (mk_default [1; 0; 0] 1 true) [(3, 1); (5, 2); (6, 3)] [(3, 1); (5, 2); (6, 3)]) = [6].
+Proof. vm_compute. reflexivity. Qed.
